@@ -161,6 +161,11 @@ def profile_mismatch(rng: random.Random) -> S.SimCfg:
         for w in range(cfg.numnodes):
             if rng.random() < 0.5:
                 cfg.node_ids[w] = variant(cfg.ids)
+        if rng.random() < 0.4:
+            # one of the initial workers dies right after reporting its collection (or while collecting): what it reported
+            # still takes part in the agreement
+            cfg.boot_crash[rng.randrange(cfg.numnodes)] = rng.choice(["collected", "collected", "collect"])
+            cfg.restart = rng.choice([None, 2, 4])
     else:
         # the initial workers agree; a replacement (late joiner) disagrees
         if cfg.ids:
@@ -245,10 +250,25 @@ class Facts:
         self.equal_collections = all(w.ids == cfg.ids for w in s.workers)
         first = next((nid for ev, nid in s.ctl_events if ev == "collectionfinish"), None)
         self.first = s.by_id[first] if first else None
+        # "initial" workers as the scheduler sees them: the first `numnodes` workers whose collection reaches the controller
+        # (a replacement of a worker that died while collecting is one of them; an original worker that reports after them is a
+        # late joiner)
+        order: list[str] = []
+        for ev, nid in s.ctl_events:
+            if ev == "collectionfinish" and nid not in order:
+                order.append(nid)
+        self.sched_initial = [s.by_id[x] for x in order[: cfg.numnodes]]
+        self.sched_late = [s.by_id[x] for x in order[cfg.numnodes:]]
         self.ref = self.first.ids if self.first else cfg.ids
         self.stop_conditions = (
             any(w.shouldfail or w.shouldstop or w.exitstatus == 2 for w in s.workers if w.pc == "done")
             or (cfg.maxfail and s.dsession.countfailures >= cfg.maxfail))
+
+
+def each_replacement_differs(s: S.Sim, w: S.SimWorker) -> bool:
+    """--dist each: a replacement is compared with the dead worker of the same environment"""
+    return any(d.death_hold is not None and d.number < w.number and str(d.gw.spec).split("//id=")[0] == str(w.gw.spec).split("//id=")[0]
+               and d.ids != w.ids for d in s.workers)
 
 
 def check_run(s: S.Sim, profile: str, res: CompResult, ops: list[str]) -> None:
@@ -267,8 +287,8 @@ def check_run(s: S.Sim, profile: str, res: CompResult, ops: list[str]) -> None:
     if kind == "standoff":
         props = ["C02"] + (["C17"] if profile == "lifecycle" else []) + (["C15"] if cfg.requeue else [])
         waiting = [(w.id, w.pc, list(w.queue), w.next) for w in s.workers if w.alive and w.pc != "done"]
-        odd = [w.id for w in s.workers if w.number >= cfg.numnodes and
-               (w.ids != f.ref if f.lb else w.number in cfg.node_ids) and (f.lb and w.alive and w.pc != "done" or not f.lb)]
+        odd = [w.id for w in s.workers if (w not in f.sched_initial if f.lb else w.number >= cfg.numnodes) and
+               (w.ids != f.ref if f.lb else each_replacement_differs(s, w)) and (f.lb and w.alive and w.pc != "done" or not f.lb)]
         if odd:
             fire(["C09", "C02"], f"standoff-with-disagreeing-replacement:{cfg.mode}",
                  f"stand-off: replacement {odd} collected differently and is never given tests nor shut down; the remaining tests wait forever: {waiting}")
@@ -282,7 +302,8 @@ def check_run(s: S.Sim, profile: str, res: CompResult, ops: list[str]) -> None:
             fire(["C02", "C10"] if crashy else ["C02"], f"no-end:{cfg.mode}", f"the run did not end within {cfg.max_steps} steps ({len(s.workers)} workers started)")
         return
     if kind == "noworkers":
-        odd = [w.id for w in s.workers if w.number >= cfg.numnodes and (w.ids != f.ref if f.lb else w.number in cfg.node_ids)]
+        odd = [w.id for w in s.workers if (w not in f.sched_initial if f.lb else w.number >= cfg.numnodes) and
+               (w.ids != f.ref if f.lb else each_replacement_differs(s, w))]
         if odd:
             fire(["C09"], f"no-workers-left-after-disagreeing-replacement:{cfg.mode}",
                  f"replacement {odd} collected differently, was shut down / unusable, and no worker is left: RuntimeError 'no active workers'")
@@ -605,15 +626,15 @@ def check_mismatch(s: S.Sim, f: Facts, fire: Any) -> None:
     """C09 (load-balancing modes; with --dist each every environment legitimately has its own collection, and a replacement
     is compared with the worker it replaces)"""
     cfg = s.cfg
-    initial = s.workers[: cfg.numnodes]
+    initial = f.sched_initial
     ref = f.ref
     if not f.lb:
         return
-    init_equal = all(w.ids == ref for w in initial if any(ev == "collectionfinish" and nid == w.id for ev, nid in s.ctl_events))
+    init_equal = all(w.ids == ref for w in initial)
     for wid, name, kw in s.wirelog:
         w = s.by_id[wid]
         if name in ("runtests", "runtests_all") and w.ids != ref:
-            late = w.number >= cfg.numnodes
+            late = w not in initial
             fire(["C09"], f"dispatch-to-disagreeing-{'late' if late else 'initial'}-worker:{cfg.mode}",
                  f"{wid} collected {w.ids[:4]}... (reference {ref[:4]}...) and was sent {name} {kw}")
             break
@@ -621,7 +642,7 @@ def check_mismatch(s: S.Sim, f: Facts, fire: Any) -> None:
         if s.executions:
             fire(["C09"], "tests-run-despite-disagreement", f"initial workers disagree, yet tests ran: {s.executions[:5]}")
         reported = [p for p in s.published if p[0] == "collect" and "Different tests were collected" in p[5]]
-        disagree = [w for w in initial if w.ids != ref and any(ev == "collectionfinish" and nid == w.id for ev, nid in s.ctl_events)]
+        disagree = [w for w in initial if w.ids != ref]
         names = sorted(p[2] for p in reported)
         if s.outcome and s.outcome[0] == "finished" and names != sorted(w.id for w in disagree):
             fire(["C09"], "disagreement-not-reported", f"workers {[w.id for w in disagree]} disagree with {f.first.id if f.first else None}; collection errors published for {names}")
